@@ -9,6 +9,8 @@ from menpo.visualize import print_progress, bytes_str, print_dynamic
 
 
 def _covariance_matrix_inverse(cov_mat, n_components):
+    # np.cov returns a 0-dimensional array for a single feature
+    cov_mat = np.atleast_2d(cov_mat)
     if n_components is None:
         return np.linalg.inv(cov_mat)
     else:
